@@ -41,7 +41,7 @@ const closeTag = `\?>(\r\n|\n|\r)?`
 
 // by slot name, any kind
 var bySlot = map[string]*Vocab{
-	"SemiColonTkn":              re(";", `^(;|`+closeTag+`)$`), // a close tag ends a statement like `;`
+	"SemiColonTkn":              re(";", `^(;|;?[ \t\r\n]*`+closeTag+`)$`), // a close tag ends a statement like `;`; the scanner hands `;` blanks `?>` over as one token
 	"InitSemiColonTkn":          punct(";"),
 	"CondSemiColonTkn":          punct(";"),
 	"OpenParenthesisTkn":        punct("("),
